@@ -200,7 +200,9 @@ func OpenBucket(urlStr string, bucketName string, mode OpenMode) (b *Bucket, err
 	exists, bucketCopy := registerBucket(bucket)
 	// someone else beat registered the bucket in the registry, that's OK we'll close ours
 	if exists {
-		bucket.Close(ctx)
+		// (our Bucket was never registered: release what it owns, i.e. its database connections)
+		bucket.expManager.stop()
+		_ = bucket.sqliteDB.Close()
 	}
 	// only schedule expiration if bucket is not new. This doesn't need to be locked because only one bucket will execute this code.
 	if vers != 0 {
